@@ -49,7 +49,21 @@ def w_mandy(ctx, rng, idx):
         return
     ctx.describe({'op': 'mandy_cm/fm', 'd': d, 'm': m, 'functions': [n for (n, _) in sel], 'threshold': thr, 'duplicate_snapshot': dup})
     call('regression.mandy_cm', reg.mandy_cm, x, y, phi, prop=P, threshold=thr)
-    call('regression.mandy_fm', reg.mandy_fm, x, y, phi, prop=P, threshold=thr, add_one=bool(rng.integers(0, 2)))
+    ao = bool(rng.integers(0, 2))
+    call('regression.mandy_fm', reg.mandy_fm, x, y, phi, prop=P, threshold=thr, add_one=ao)
+    if rng.random() < 0.35:
+        # thresholds close to the admissible extreme: 0.5 .. 0.93 times the smallest non-zero singular-value ratio of the unfoldings
+        for name, fn, kw in (('mandy_cm', reg.mandy_cm, {}), ('mandy_fm', reg.mandy_fm, {'add_one': ao})):
+            with probe.oracle():
+                fac = monitors_regression.mandy_factors(name, x, [getattr(f, '__vt_plain__', f) for f in phi], ao)
+                if int(np.prod([f.shape[0] for f in fac])) * m > 2 ** 14:
+                    continue
+                spectra = monitors_regression.mandy_spectra(fac)
+                ratios = [float(v) for sp in spectra if sp.size and sp[0] > 0 for v in (sp / sp[0]) if v > 1e-9]
+            if not ratios:
+                continue
+            t2 = float(rng.uniform(0.5, 0.93)) * min(ratios)
+            call('regression.' + name, fn, x, y, phi, prop=P, tags=['threshold_near_smallest_ratio'], threshold=t2, **kw)
     if idx < 3:
         ctx.sample({'workload': 'mandy', 'state_dim': d, 'snapshots': m, 'functions': [n for (n, _) in sel], 'threshold': thr, 'duplicate_snapshot': dup})
 
